@@ -34,7 +34,8 @@ def build(cfg):
     m.submodules.mon = mon
     inputs = [(f"i{k}", s.i) for k, s in enumerate(srcs)] + [("enable", mon.enable), ("clear", mon.clear)]
     probes = [(f"trg{k}", s.trg) for k, s in enumerate(srcs)] + [("pending", mon.pending), ("src_i", mon.src.i)]
-    meta = dict(index=[emap.index(s) for s in srcs], size=emap.size)
+    meta = dict(index=[emap.index(s) for s in srcs], size=emap.size,
+                widths=[len(mon.enable), len(mon.pending), len(mon.clear)])
     return Harness(m, inputs, probes, meta)
 
 
@@ -52,7 +53,9 @@ class Observer:
         doms = [range(1 << w) for w in comp.in_widths]
         self._letters = list(itertools.product(*doms))
         self.bad_map = None
-        if sorted(self.index) != list(range(n)) or h.meta["size"] != n:
+        if h.meta["widths"] != [n, n, n]:
+            self.bad_map = f"enable/pending/clear are {h.meta['widths']} bits wide for {n} sources"
+        elif sorted(self.index) != list(range(n)) or h.meta["size"] != n:
             self.bad_map = f"event map numbers {n} sources as {self.index} (size {h.meta['size']})"
         order = cfg.get("order") or list(range(n))
         exp_index = [order.index(k) for k in range(n)]
@@ -169,10 +172,11 @@ def h_execute(history, parent_key=None):
         if last:
             if exp == "ok" and raised is not None:
                 err = dict(msg=f"{letter} raised {type(raised).__name__}: {raised}", signature=dict(kind="eventmap", letter=letter))
-            elif exp == "refuse" and not (raised is not None and is_refusal(raised)):
-                err = dict(msg=f"{letter} should be refused with ValueError/TypeError, got {raised!r}", signature=dict(kind="eventmap", letter=letter))
-            elif exp == "keyerror" and not isinstance(raised, KeyError):
-                err = dict(msg=f"{letter} should raise KeyError, got {raised!r}", signature=dict(kind="eventmap", letter=letter))
+            elif exp in ("refuse", "keyerror") and raised is None and not letter.startswith("add_bad") and not letter.startswith("index"):
+                # adding a source to a frozen map must raise (which exception class is not the property's business)
+                err = dict(msg=f"{letter} on a frozen map was accepted", signature=dict(kind="eventmap", letter=letter))
+            # (invalid arguments - a non-source, a stranger - are not in the property's quantifier: whatever the
+            #  library answers, the numbering checked below must stay intact)
     # observation through public queries only
     got = [(srcs.index(s) if s in srcs else -1, i) for s, i in emap.sources()]
     idx = []
@@ -181,12 +185,23 @@ def h_execute(history, parent_key=None):
             idx.append(emap.index(srcs[k]))
         except KeyError:
             idx.append(None)
-    canon = (tuple(got), emap.size, tuple(idx), frozen)
+    # is the map closed?  observed on the real object with a throw-away source (this object is discarded)
+    size_before = emap.size
+    try:
+        emap.add(event.Source(path=("probe",)))
+        closed = False
+    except Exception:
+        closed = True
+    canon = (tuple(got), size_before, tuple(idx), closed)
+    if err is None and closed != frozen:
+        err = dict(msg=f"after {list(history)} the map {'still accepts' if frozen else 'refuses'} a new source, "
+                       f"expected {'frozen' if frozen else 'open'} (freeze / use in a Monitor / assignment to Source.event_map freeze it)",
+                   signature=dict(kind="eventmap", what="frozen"))
     if err is None:
         exp_sources = [(k, i) for i, k in enumerate(ref)]
         exp_idx = [ref.index(k) if k in ref else None for k in range(3)]
-        if got != exp_sources or emap.size != len(ref) or idx != exp_idx:
-            err = dict(msg=f"sources()={got} size={emap.size} index={idx}; expected {exp_sources} / {len(ref)} / {exp_idx}",
+        if got != exp_sources or size_before != len(ref) or idx != exp_idx:
+            err = dict(msg=f"sources()={got} size={size_before} index={idx}; expected {exp_sources} / {len(ref)} / {exp_idx}",
                        signature=dict(kind="eventmap", what="numbering"))
     return canon, err
 
